@@ -383,13 +383,44 @@ exactly the binding's (effective) includeSnapshotsFrom, each once. -/
 theorem update_snapshots_keys (hb : HookBindings) (read : Nat → Nat → Option Snap) (ctx : List BC) :
     ∃ view, AllOk hb view ctx (updateSnapshots hb read ctx) ∧
     ∀ bc bc', BCok hb view bc bc' →
-      (MKeys bc'.snapshots).Nodup ∧ ∀ n, n ∈ MKeys bc'.snapshots ↔ n ∈ getInclude hb bc.btype bc.binding := by
+      (MKeys bc'.snapshots).Nodup ∧ ∀ n, n ∈ MKeys bc'.snapshots ↔ n ∈ inclOf hb bc := by
   obtain ⟨_, _, ok⟩ := updateLoop_spec hb read ctx {}
   refine ⟨viewOf (updateLoop hb read {} ctx).1, ok _ (Ext.refl _), ?_⟩
   intro bc bc' h
   refine ⟨h.2.2.2.1, fun n => ?_⟩
   rw [← mget_isSome_iff, h.2.2.2.2.1 n]
-  by_cases hn : n ∈ getInclude hb bc.btype bc.binding <;> simp [hn]
+  by_cases hn : n ∈ inclOf hb bc <;> simp [hn]
+
+/-- **C02.3 `update_snapshots_keys_own`** (repaired code) A context that carries the effective
+include list of the binding that emitted it (as the kubernetes, schedule, admission and conversion
+controllers set `Metadata.IncludeSnapshots`) gets exactly those keys — whatever other bindings of
+the same type share its name. With `group_include_effective`: the declared names plus the kubernetes
+bindings of the binding's group. -/
+theorem update_snapshots_keys_own (hb : HookBindings) (view : Nat → Snap) (bc bc' : BC)
+    (h : BCok hb view bc bc') (hne : bc.metaIncl ≠ []) :
+    ∀ n, n ∈ MKeys bc'.snapshots ↔ n ∈ bc.metaIncl := by
+  intro n
+  rw [← mget_isSome_iff, h.2.2.2.2.1 n]
+  have : inclOf hb bc = bc.metaIncl := by
+    unfold inclOf
+    cases hm : bc.metaIncl with
+    | nil => exact absurd hm hne
+    | cons a t => simp
+  rw [this]
+  by_cases hn : n ∈ bc.metaIncl <;> simp [hn]
+
+/-- **witness (defect, repaired by a `fix:` commit)**: two schedule bindings share a name (both
+unnamed = `schedule`); the first declares no includeSnapshotsFrom, the second declares `[7]`. The
+by-name lookup of the unrepaired `UpdateSnapshots` resolves the second binding's context to the
+first declaration: the hook gets `snapshots: {}`. With the context's own list it gets `{7: …}`. -/
+theorem dup_binding_names_witness :
+    let hb : HookBindings := { sched := [(5, []), (5, [7])] }
+    let read : Nat → Nat → Option Snap := fun _ _ => some []
+    -- unrepaired: lookup by name only
+    getInclude hb .schedule 5 = [] ∧
+    -- repaired: the second binding's context carries [7]
+    ((updateSnapshots hb read [{ binding := 5, btype := .schedule, isSync := false, metaIncl := [7] }]).map
+      (fun bc => bc.snapshots.map (·.1))) = [[7]] := by decide
 
 /-- **C02.3 `update_snapshots_consistent`** With an arbitrary read oracle (each `SnapshotsFor` call
 may see a different cluster) there is ONE view `binding ↦ snapshot` such that every occurrence of a
@@ -421,7 +452,7 @@ example :
     let hb : HookBindings := { kube := [(1, [1, 2]), (2, [1])] }
     let e (n : Nat) : Entry := ⟨⟨1, 1, n⟩, none, n, n⟩
     let read : Nat → Nat → Option Snap := fun b t => some [e (10 * b + t)]
-    (updateSnapshots hb read [⟨1, .kubernetes, true, [], []⟩, ⟨2, .kubernetes, false, [], []⟩]).map
+    (updateSnapshots hb read [⟨1, .kubernetes, true, [], [], []⟩, ⟨2, .kubernetes, false, [], [], []⟩]).map
         (fun bc => (bc.objects, bc.snapshots))
       = [([e 10], [(1, [e 10]), (2, [e 21])]), ([], [(1, [e 10])])] := by decide
 
